@@ -690,4 +690,76 @@ example :
     (s6.proposals.map (·.result)) = [.passed] := by
   decide +kernel
 
+/-! ### proposals voted by the owners of a spending pool or a collective -/
+
+theorem mem_distinct (l : List Nat) (x : Nat) : x ∈ distinct l ↔ x ∈ l := by
+  induction l with
+  | nil => simp [distinct]
+  | cons a t ih =>
+    unfold distinct
+    by_cases h : a ∈ t
+    · simp only [h, if_true, ih, List.mem_cons]
+      constructor
+      · exact Or.inr
+      · rintro (rfl | h')
+        · exact h
+        · exact h'
+    · simp only [h, if_false, List.mem_cons, ih]
+
+theorem nodup_distinct (l : List Nat) : (distinct l).Nodup := by
+  induction l with
+  | nil => simp [distinct]
+  | cons a t ih =>
+    unfold distinct
+    by_cases h : a ∈ t
+    · simp only [h, if_true]; exact ih
+    · simp only [h, if_false, List.nodup_cons]
+      exact ⟨fun hm => h ((mem_distinct t a).mp hm), ih⟩
+
+/-- **each owner counts once**: naming an owner a second time - by account next to a role it is a member of, or in two
+roles - leaves the electorate as it is -/
+theorem owner_named_twice_counts_once (a : Nat) (accounts roleMembers : List Nat) (h : a ∈ accounts ++ roleMembers) :
+    localElectorate (a :: accounts) roleMembers = localElectorate accounts roleMembers := by
+  unfold localElectorate
+  have : distinct (a :: accounts ++ roleMembers) = distinct (accounts ++ roleMembers) := by
+    show distinct (a :: (accounts ++ roleMembers)) = _
+    rw [distinct]
+    simp only [h, if_true]
+  rw [this]
+
+/-- **a proposal with a local electorate reaches enactment only with the STORED quorum of the DISTINCT owners** (and a
+passing tally of the votes cast): whatever quorum or owner list the proposal's own content carries plays no part -/
+theorem local_pass_needs_stored_quorum (tally : Nat → Nat → Nat → Nat → Nat → Nat → Tally) (q : Dec.D)
+    (accounts roleMembers : List Nat) (y n a v o : Nat)
+    (h : localResult tally q accounts roleMembers y n a v o = some .enactment) :
+    isQuorum q (y + n + a + v + o) (localElectorate accounts roleMembers) = some true ∧
+    tally y n a v 0 (y + n + a + v + o) = .passed := by
+  unfold localResult at h
+  simp only at h
+  cases hq : isQuorum q (y + n + a + v + o) (localElectorate accounts roleMembers) with
+  | none => rw [hq] at h; cases h
+  | some b =>
+    rw [hq] at h
+    cases b with
+    | false => cases h
+    | true =>
+      refine ⟨rfl, ?_⟩
+      cases ht : tally y n a v 0 (y + n + a + v + o) <;> rw [ht] at h <;> simp at h
+
+/-- the quorum in numbers: votes·10¹⁸ ≥ distinct owners · quorum·10¹⁸, and never more votes than owners -/
+theorem local_quorum_exact (q : Dec.D) (votes owners : Nat) (h : isQuorum q votes owners = some true) :
+    votes ≤ owners ∧ q ≤ Dec.one ∧ Dec.mul (Dec.ofInt owners) q ≤ Dec.ofInt votes := by
+  unfold isQuorum at h
+  split at h
+  · cases h
+  · split at h
+    · cases h
+    · rename_i h1 h2
+      simp only [Option.some.injEq, decide_eq_true_eq] at h
+      exact ⟨Nat.le_of_not_gt h1, Int.not_lt.mp h2, h⟩
+
+/-- non-vacuity and the two shapes the strands of the harness aim at: three owners of whom one votes - quorum 0.67 stored
+(0.25 proposed): not reached; an owner named by account AND in the role of five: 1 of 5, quorum 0.5: not reached -/
+example : localElectorate [0, 1, 2] [] = 3 ∧ localElectorate [3] [0, 1, 2, 3, 4] = 5 ∧ localElectorate [] [] = 1 := by decide
+
 end Sekai.Props.C08
